@@ -264,7 +264,12 @@ def h_open(ctx, N, mode, prefix):
             want = default_kind[table.get_fault_handler(f[2])]
             ctx.covered(f"open:{f[2].name}:{f[0]}")
             if cancel_exchange and f[0] == "abandon":
-                continue  # fault during the Finished(cancel) exchange: abandonment is required (C04)
+                # fault during the Finished(cancel) exchange: abandonment is required (C04) - and it is the
+                # only callback for that fault
+                ctx.prop("no_other_callback_for_that_fault", len(o.faults) == 1,
+                         lambda: {"sig": f"open: abandonment during the Finished(cancel) exchange plus "
+                                         f"{[(g[0], g[2].name) for g in o.faults if g is not f]}"})
+                continue
             ctx.prop("callback_kind_is_table_entry", f[0] == want,
                      lambda: {"sig": f"open: {f[2].name} configured {want}, callback {f[0]}"})
             ctx.prop("callback_transaction_id", f[1] == was_tid, lambda: {"sig": f"open: {f[2].name} id {f[1]}"})
